@@ -300,7 +300,7 @@ class ClosureResult:
         self.run_events = 0
 
 
-def close(program, world0, ghost0, client_actions, run_action, monitor, make_hooks, configure=None, max_states=200000, sample_every=97, check_world=None, stop_rules=None):
+def close(program, world0, ghost0, client_actions, run_action, monitor, make_hooks, configure=None, max_states=200000, sample_every=97, check_world=None, stop_rules=None, frozen_roots=()):
     """Fixed point of `run_action` over all client actions from all reachable typestates.
 
     world0      heap (dict of roots) of the initial typestate
@@ -312,6 +312,7 @@ def close(program, world0, ghost0, client_actions, run_action, monitor, make_hoo
     res = ClosureResult()
     normalize(world0)
     k0 = (canon(world0), canon(ghost0))
+    frozen0 = {r: canon(world0[r]) for r in frozen_roots}
     seen = {k0: (None, None)}
     store = {k0: (world0, ghost0)}
     queue = deque([k0])
@@ -357,11 +358,14 @@ def close(program, world0, ghost0, client_actions, run_action, monitor, make_hoo
                         continue
                     wn = clone(w)
                     normalize(wn)
-                    runs.append((hooks.events, obs, outcome, w, wn, canon(wn), [c for (_, c, _) in ch.log]))
+                    iso = [r for r in frozen_roots if canon(wn[r]) != frozen0[r]]
+                    runs.append((hooks.events, obs, outcome, w, wn, canon(wn), [c for (_, c, _) in ch.log], iso))
                     res.run_events += len(hooks.events)
                 trans_cache[ck] = runs
-            for events, obs, outcome, w, wn, wkey2, choices in runs:
+            for events, obs, outcome, w, wn, wkey2, choices, iso in runs:
                 g2, viols = monitor(copy.deepcopy(ghost), action, events, obs, outcome, w)
+                for r in iso:
+                    viols = list(viols) + [("ISO", f"{show_action(action)} on one instance changes the state of another instance of the same class ({r}): per-instance records are shared between instances", None)]
                 if stop_rules is not None:
                     # rules owned by other properties neither report nor cut the exploration here
                     viols = [v for v in viols if v[0] in stop_rules]
